@@ -45,14 +45,14 @@ Definition args_text (l : list Z) : str := join (lit ", ") (map py_str_of_Z l).
 Definition dq (t : str) : str := [34%N] ++ t ++ [34%N].
 
 Fixpoint text (W : world) (ft : Z -> str) (lvl : nat) (v : value) {struct v} : str :=
-  let array (l : list value) : str :=
-    lit "[" ++ [10%N]
+  let array (opening closing : str) (l : list value) : str :=
+    opening ++ [10%N]
     ++ (fix go (l : list value) : str :=
           match l with
           | [] => []
           | x :: r => indent (S lvl) ++ text W ft (S lvl) x ++ lit "," ++ [10%N] ++ go r
           end) l
-    ++ indent lvl ++ lit "]" in
+    ++ indent lvl ++ closing in
   match v with
   | VNone => lit "None"
   | VBool b => if b then lit "True" else lit "False"
@@ -67,9 +67,13 @@ Fixpoint text (W : world) (ft : Z -> str) (lvl : nat) (v : value) {struct v} : s
   | VPeriod d => lit "XmlPeriod(" ++ dq d ++ lit ")"
   | VStd k args => lit "datetime." ++ std_name k ++ lit "(" ++ args_text (std_repr_args k args) ++ lit ")"
   | VEnum c m => join (lit ".") (snd c) ++ lit "." ++ m
-  | VList l => match l with [] => lit "[]" | _ => array l end
-  | VTuple l => match l with [] => lit "()" | _ => array l end
-  | VSet fz l => match l with [] => if fz then lit "frozenset()" else lit "set()" | _ => array l end
+  | VList l => match l with [] => lit "[]" | _ => array (lit "[") (lit "]") l end
+  | VTuple l => match l with [] => lit "()" | _ => array (lit "(") (lit ")") l end
+  | VSet fz l =>
+      match l with
+      | [] => if fz then lit "frozenset()" else lit "set()"
+      | _ => if fz then array (lit "frozenset({") (lit "})") l else array (lit "{") (lit "}") l
+      end
   | VDict kv =>
       match kv with
       | [] => lit "{}"
